@@ -157,7 +157,7 @@ type LoopRun struct {
 }
 
 func (c *Ctx) loopSetup(ev *Evidence, harness string, maxAttrs int, names ...string) (*LoopRun, error) {
-	in, err := c.NewInterp(sym.Config{MaxAttrs: maxAttrs, TokenNames: names, NoFeasCheck: true, Stubs: map[string]string{sanitizeAttrsFn: "stubSanitizeAttrs"}})
+	in, err := c.NewInterp(sym.Config{MaxAttrs: maxAttrs, TokenNames: names, NoFeasCheck: true, MaxStates: 120000, UnwindSym: 4, Stubs: map[string]string{sanitizeAttrsFn: "stubSanitizeAttrs"}})
 	if err != nil {
 		return nil, err
 	}
